@@ -147,6 +147,16 @@ def rsaDecReal (oaep : Option String) (k : RsaPriv) (ct : Bs) : Option Bs :=
   | some h => (hashAlgOfName h).bind fun a => (rsaOaepDecrypt a (natOfBs k.n) d (natsToBA ct)).map baToNats
   | none => (rsaPkcs1v15Decrypt (natOfBs k.n) d (natsToBA ct)).map baToNats
 
+/-- RSA key generation is not re-implemented: the executable model returns placeholder members of
+    the right shape (a modulus of the requested width, the requested exponent).  The correspondence
+    masks all generated RSA members; their arithmetic is checked on the implementation's keys by the
+    C11 oracle. -/
+def rsaGenStub (bits e : Nat) (_rnd : Bs) : Option (List (String × Bs)) :=
+  let nb := (bits + 7) / 8
+  let eb := baToNats (Crypto.natToBytesMin e)
+  some [("n", 128 :: List.replicate (nb - 1) 1), ("e", if eb.isEmpty then [0] else eb), ("d", [1]), ("p", [1]), ("q", [1]),
+        ("dp", [1]), ("dq", [1]), ("qi", [1])]
+
 def pbkdf2Real (h : String) (pw salt : Bs) (iter : Int) (dkLen : Nat) : Option Bs :=
   if iter < 1 then none
   -- the executable model does not perform more than 2^22 iterations: such a request is answered
@@ -166,7 +176,7 @@ def inflateReal (x : Bs) : Option Bs :=
 def realPrims : Prims :=
   { hash := hashByName, hmac := hmacByName, ecValid := ecValidReal, ecdsaVerify := ecdsaVerifyReal,
     ecdsaSign := ecdsaSignReal, rsaVerify := rsaVerifyReal, rsaSign := rsaSignReal,
-    ecGen := ecGenReal, ecdh := ecdhReal, ecAdd := ecAddReal,
+    ecGen := ecGenReal, rsaGen := rsaGenStub, ecdh := ecdhReal, ecAdd := ecAddReal,
     gcmEnc := gcmEncReal, gcmDec := gcmDecReal,
     cbcEnc := fun k iv pt => baToNats (aesCbcEncrypt (natsToBA k) (natsToBA iv) (natsToBA pt)),
     cbcDec := fun k iv ct => (aesCbcDecrypt (natsToBA k) (natsToBA iv) (natsToBA ct)).map baToNats,
